@@ -381,13 +381,29 @@ fn cmd_sched(a: &Value) -> Value {
         }
         uni.sort();
         uni.dedup();
-        let mut reference = sched::reference(&s, &uni);
+        // persistent faults: the oracle is in-order execution on the same faulty database;
+        // transient faults: the fault-free run (see `monitors`)
+        let faulty_ref = s.fault.as_ref().is_some_and(|(_, m)| m == "persistent");
+        if s.fault.as_ref().is_some_and(|(_, m)| m == "panic") {
+            // keep the injected panics of the reference and of the workers out of the log
+            std::panic::set_hook(Box::new(|_| {}));
+        }
+        let mut reference = sched::reference(&s, &uni, faulty_ref);
         let mut distinct = std::collections::HashSet::new();
         let mut steps = 0usize;
         let mut sample = Value::Null;
+        let mut guided: Vec<Value> = Vec::new();
         for k in 0..runs {
             let policy = match a["policy"].as_str().unwrap_or("pct") {
                 "replay" => policy_of(a, vec![]),
+                "guide" if k == 0 || k % 2 == 1 => Policy::Guide(
+                    a["guide"].as_array().unwrap().iter().map(|g| {
+                        let loc = g[2].as_str().map(|name| {
+                            // model location name -> raw event location of this scenario
+                            s.locs.iter().position(|l| l == name).map_or(name.to_owned(), |i| format!("S:{:x}:{:x}", holder(), i))
+                        });
+                        (g[0].as_str().unwrap().to_owned(), g[1].as_str().unwrap().to_owned(), loc)
+                    }).collect()),
                 "random" => Policy::Random,
                 _ => if k % 3 == 2 { Policy::Random } else { Policy::Pct { depth: 2 + k % 4, est_len: 150 * s.n } },
             };
@@ -411,10 +427,14 @@ fn cmd_sched(a: &Value) -> Value {
                     }
                 }
                 uni.sort();
-                reference = sched::reference(&s, &uni);
+                reference = sched::reference(&s, &uni, faulty_ref);
             }
             let evs = trace_events(&s, &o.record);
             let found = monitors(&s, &reference, &o);
+            if a["policy"].as_str() == Some("guide") {
+                guided.push(json!({"followed": o.record.guide_pos, "of": a["guide"].as_array().map_or(0, |g| g.len()),
+                    "diverged": o.record.diverged}));
+            }
             let header = json!({
                 "name": s.name, "n": s.n, "workers": workers,
                 "locs": uni.iter().map(|l| loc_name(&s, l)).collect::<Vec<_>>(),
@@ -435,7 +455,8 @@ fn cmd_sched(a: &Value) -> Value {
                 }
             }
         }
-        per.push(json!({"scenario": s.name, "runs": runs, "distinct_schedules": distinct.len(), "steps": steps, "sample": sample}));
+        per.push(json!({"scenario": s.name, "runs": runs, "distinct_schedules": distinct.len(), "steps": steps,
+            "sample": sample, "guided": guided}));
     }
     json!({"scenarios": per, "violations": violations, "trace_runs": out.runs, "trace_events": out.events})
 }
